@@ -21,6 +21,43 @@ def dedent_with(src, header_after):
         k += 1
     return src[:j] + "\n".join(out) + "\n" + "\n".join(lines[k:])
 
+
+def _ordereddict_rewrite(s):
+    """H4: the list-cell ring replaced by collections.OrderedDict (behaviour-preserving rewrite of the
+    recency structure: DESIGN 5 lists it among the rewrites that must stay silent)"""
+    i = s.index("    def _init_ll(self):")
+    j = s.index("    def __setitem__(self, key, value):")
+    helpers = '''    def _init_ll(self):
+        self._order = OrderedDict()
+
+    def _get_flattened_ll(self):
+        return [(_MISSING, _MISSING)] + list(self._order.items())
+
+    def _get_link_and_move_to_front_of_ll(self, key):
+        self._order.move_to_end(key)        # KeyError if the key has no link
+        return key
+
+    def _set_key_and_add_to_front_of_ll(self, key, value):
+        self._order[key] = value
+
+    def _set_key_and_evict_last_in_ll(self, key, value):
+        evicted, _ = self._order.popitem(last=False)
+        self._order[key] = value
+        return evicted
+
+    def _remove_from_ll(self, key):
+        del self._order[key]
+
+'''
+    s = s[:i] + helpers + s[j:]
+    s = s.replace("                link[VALUE] = value\n", "                self._order[link] = value\n")
+    s = s.replace("                link = self._link_lookup[key]\n", "                link = self._order[key]\n")
+    a = s.index("class LRI(dict):"); b = s.index("class LRU(LRI):")
+    lri = s[a:b].replace("            return link[VALUE]\n", "            return link\n")
+    lru = s[b:].replace("            return link[VALUE]\n", "            return self._order[link]\n")
+    s = s[:a] + lri + lru
+    return s.replace("import heapq\n", "import heapq\nfrom collections import OrderedDict\n", 1)
+
 MUTANTS = {
  "M1_setitem_nolock": lambda s: dedent_with(s, "    def __setitem__(self, key, value):"),
  "M2_dictset_outside": lambda s: s.replace("                link[VALUE] = value\n            super().__setitem__(key, value)\n        return", "                link[VALUE] = value\n        super().__setitem__(key, value)\n        return"),
@@ -37,6 +74,7 @@ MUTANTS = {
  "H1_rename_locals": lambda s: s.replace("second_newest", "penultimate").replace("oldanchor", "former_anchor"),
  "H2_get_extra_lock": lambda s: s.replace("    def get(self, key, default=None):\n        try:\n            return self[key]\n        except KeyError:\n            self.soft_miss_count += 1\n            return default",
       "    def get(self, key, default=None):\n        with self._lock:\n            try:\n                return self[key]\n            except KeyError:\n                self.soft_miss_count += 1\n                return default"),
+ "H4_ordereddict_ring": _ordereddict_rewrite,
  "H3_reorder_independent": lambda s: s.replace("        newest[PREV] = second_newest\n        newest[NEXT] = anchor\n        return newest", "        newest[NEXT] = anchor\n        newest[PREV] = second_newest\n        return newest"),
 }
 names = sys.argv[1:] or list(MUTANTS)
